@@ -41,6 +41,12 @@ class Rule:
         self.count = 0
 
 
+class SkipSection(AnalysisError):
+    """Raised by a rule to leave its `with ck.section(...)` block early on purpose (no abstention)."""
+    def __init__(self):
+        super().__init__('-', 'skip')
+
+
 class _Section:
     def __init__(self, ck, label):
         self.ck = ck
@@ -53,6 +59,8 @@ class _Section:
         if et is None:
             return False
         ck = self.ck
+        if issubclass(et, AnalysisError) and ev.rule == '-' and ev.reason == 'skip':
+            return True         # the section ended early on purpose
         if issubclass(et, AnalysisError):
             ck.analysis_errors.append((ev.rule, ev.reason))
             ck.aborted_sections.append(self.label)
